@@ -381,8 +381,7 @@ impl Session {
 		let data_dir = format!("{}/wallet_data", self.top);
 		let opts = ProjOpts {
 			slots: vec![],
-			heights: true,
-		};
+			heights: true, canon_ids: false };
 		let proj = match dwallet::with(&self.handler.wallet, |b| {
 			dwallet::project_backend(b, &data_dir, None, &opts)
 		}) {
